@@ -89,14 +89,7 @@ ChainWalkContents(fold, chain, folder, key) ==
         ELSE {e.c : e \in {x \in MemberWalk(fold, chain[Min(idx)], folder) : Key(fold, x.n) = key}}
 
 (* ---- how FileSystemChain combines what its members report -------------------- *)
-\* member-relative name as os.path.relpath computes it (also for names outside the prefix)
-\* (components compared up to case, like every other name comparison)
-RECURSIVE Common(_, _, _)
-Common(fold, a, b) == IF a = <<>> \/ b = <<>> \/ FoldC(fold, a[1]) # FoldC(fold, b[1]) THEN 0
-                      ELSE 1 + Common(fold, Tail(a), Tail(b))
-RelPath(fold, n, pfx) == LET c == Common(fold, n, pfx)
-                   IN  [k \in 1..(Len(pfx) - c) |-> ".."] \o SubSeq(n, c + 1, Len(n))
-\* lists = per member, in chain order: the sequence of [n, c] it reported.  The result is the
+\* lists = per member, in chain order: the sequence of [n, c] it reported (names below its prefix).  The result is the
 \* concatenation with names made relative, keeping the first occurrence of every folded name.
 RECURSIVE Dedup(_, _, _)
 Dedup(fold, q, seen) ==
@@ -108,8 +101,8 @@ Concat(qq) == IF qq = <<>> THEN <<>> ELSE qq[1] \o Concat(Tail(qq))
 \* walk_folder_repeat: the same without de-duplication
 ComposeRepeat(fold, pfxs, lists) ==
     Concat([i \in 1..Len(lists) |->
-              [k \in 1..Len(lists[i]) |-> [n |-> RelPath(fold, lists[i][k].n, pfxs[i]), c |-> lists[i][k].c]]])
+              [k \in 1..Len(lists[i]) |-> [n |-> Rel(pfxs[i], lists[i][k].n), c |-> lists[i][k].c]]])
 Compose(fold, pfxs, lists) ==
     Dedup(fold, Concat([i \in 1..Len(lists) |->
-                         [k \in 1..Len(lists[i]) |-> [n |-> RelPath(fold, lists[i][k].n, pfxs[i]), c |-> lists[i][k].c]]]), {})
+                         [k \in 1..Len(lists[i]) |-> [n |-> Rel(pfxs[i], lists[i][k].n), c |-> lists[i][k].c]]]), {})
 =============================================================================
